@@ -164,13 +164,6 @@ class TipperSurvey(FEMSurvey, AirborneEMSurvey):
             }
         }
 
-    @property
-    def default_units(self) -> list[str]:
-        """Accepted time units. Must be one of "Seconds (s)",
-        "Milliseconds (ms)", "Microseconds (us)" or "Nanoseconds (ns)"
-        """
-        return self.__UNITS
-
 
 class TipperReceivers(TipperSurvey, Curve):  # pylint: disable=too-many-ancestors
     """
